@@ -181,13 +181,13 @@ def coq_makefile():
     return True, ""
 
 
-def coq_build(targets, timeout=3000):
+def coq_build(targets, timeout=3000, keep_going=False):
     """Build the given .vo targets (paths relative to coq/, e.g. theories/Props/C20.vo)."""
     with Lock("coq"):
         ok, out = coq_makefile()
         if not ok:
             return False, out
-        rc, out = sh(["make", "-j%d" % NPROC] + list(targets), cwd=COQ, timeout=timeout)
+        rc, out = sh(["make", "-j%d" % NPROC] + (["-k"] if keep_going else []) + list(targets), cwd=COQ, timeout=timeout)
         return rc == 0, out
 
 
